@@ -13,7 +13,7 @@ From BBS Require Import Common.Sx Buffer.Source Buffer.Validate Buffer.Convert
   Buffer.StreamProofs Buffer.ValidateProofs Buffer.ConvertProofs
   Buffer.ValidateReaderProofs Buffer.ReaderBufferProofs Buffer.ConvertProofs2 Buffer.OtherwiseProofs Run.R09
   Buffer.C09FullValidate Buffer.C09FullCombinators Buffer.C09FullReader Buffer.C09FullChunk
-  Buffer.C09FullReaderBuf Buffer.C09FullSizeFirst Buffer.C09FullComplete Buffer.C09FullMonitor.
+  Buffer.C09FullReaderBuf Buffer.C09FullSizeFirst Buffer.C09FullComplete Buffer.C09FullMonitor Buffer.C09FullExtras.
 Import ListNotations.
 Open Scope N_scope.
 
@@ -233,6 +233,39 @@ Theorem reader_buffer_valid_completes : forall H cfg fuel evs attach m o,
   completed m (o_err o) = true.
 Proof. exact reader_valid_completes. Qed.
 Print Assumptions reader_buffer_valid_completes.
+
+(** (f) After the end of the stream nothing more is handed out (any script,
+    valid or not): further reads of a ToChunkReader repeat the error and carry
+    no data; further reads of a ToReader carry no data. *)
+Theorem chunk_reader_buffer_chunk_reader_extras : forall H cfg fuel evs off max k,
+  let o := cas_chunk_reader H cfg fuel evs (MToChunkReader off max k) in
+  o_err o <> EFuel -> o_extra o = repeat (o_err o) k /\ o_aux o = [].
+Proof. exact chunk_to_chunk_reader_extras. Qed.
+Print Assumptions chunk_reader_buffer_chunk_reader_extras.
+Theorem reader_buffer_chunk_reader_extras : forall H cfg fuel evs attach off max k,
+  let o := cas_reader H cfg fuel evs attach (MToChunkReader off max k) in
+  o_err o <> EFuel -> o_extra o = repeat (o_err o) k /\ o_aux o = [].
+Proof. exact reader_to_chunk_reader_extras. Qed.
+Print Assumptions reader_buffer_chunk_reader_extras.
+Theorem chunk_reader_buffer_reader_extras : forall H cfg fuel evs caps k,
+  let o := cas_chunk_reader H cfg fuel evs (MToReader caps k) in
+  o_err o <> EFuel -> o_aux o = [].
+Proof. exact chunk_to_reader_extras. Qed.
+Print Assumptions chunk_reader_buffer_reader_extras.
+Theorem reader_buffer_reader_extras : forall H cfg fuel evs attach caps k,
+  let o := cas_reader H cfg fuel evs attach (MToReader caps k) in
+  o_err o <> EFuel -> o_aux o = [].
+Proof. exact reader_to_reader_extras. Qed.
+Print Assumptions reader_buffer_reader_extras.
+
+(** (g) NewCASBufferFromByteSlice validates eagerly: mismatching data => every
+    method fails with the Source's code, hands out nothing, one negative verdict. *)
+Theorem byte_slice_buffer_otherwise : forall H cfg fuel data m,
+  m <> MDiscard -> ~ (lenN data = g_size cfg /\ g_hash cfg = H data) ->
+  let o := cas_byte_slice H cfg fuel data m in
+  o_err o = ECode (g_code cfg) /\ o_data o = [] /\ o_aux o = [] /\ o_cbs o = [false].
+Proof. exact byte_slice_otherwise. Qed.
+Print Assumptions byte_slice_buffer_otherwise.
 
 (** * size_before_hash.  The hash function enters only through the comparison
     with the digest's hash; the whole outcome (data, error, further reads,
